@@ -1,5 +1,6 @@
 SPECIFICATION Spec
 CONSTANTS HourDoesNotZeroMinutes <- Off
+          DayMoveKeepsHour <- Off
           Week53Everywhere <- On
           AllowKnownClass <- Off
           Shapes = 0
